@@ -64,6 +64,13 @@ def analyse(W, name, f, ctx, desc, path):
             break
         if seq[i][1] != seq[i + 1][1]:
             items.append(("viol", "R1", f"{name}:different-bytes", f"{entry}: the two writers receive different values for one statement: {seq[i][1]!r} vs {seq[i + 1][1]!r}", where))
+        elif isinstance(seq[i][1], Unk) and seq[i][1].typ == "object" and W.I.tag(seq[i][1]).startswith("g."):
+            # an object the builder created once and keeps in a field (a reusable buffer): every statement is the same
+            # mutable object, so a writer that keeps what it was handed (a recording or queueing writer) sees it change
+            items.append(("viol", "R1", f"{name}:shared-buffer", f"{entry}: writers are handed the builder's own long-lived object "
+                          f"{W.I.tag(seq[i][1])} instead of a bytes value of their own for this statement", where))
+        elif isinstance(seq[i][1], Unk):
+            items.append(("undecided", "R1", f"{entry}: writers receive {seq[i][1]!r}, a value the analysis cannot see into"))
         elif not isinstance(seq[i][1], (Bytes, Const)):
             items.append(("viol", "R1", f"{name}:not-bytes", f"{entry}: writers receive {seq[i][1]!r}, not encoded bytes", where))
         else:
@@ -284,7 +291,7 @@ def run(check, repo, tier):
     check.rule("R3", "encoder codec == decoder codec in FileWriter, LogWriter, PrintrunWriter")
     check.rule("R4", "registration: idempotent ordered add, remove, flush to all, teardown disconnects all with wait and clears")
     check.rule("R5", "FileWriter: lazy single connect, text vs bytes by stream kind, closes only what it opened, flush forwards")
-    cr = CommandRun(repo, tier=tier, cm_body=("pass",), with_invalid=False, per_path_setup=two_writers,
+    cr = CommandRun(repo, tier=tier, cm_body=("pass",), with_invalid=False, per_path_setup=two_writers, opaque_payload_ok=True,
                     pins=lambda k: (True if k.startswith("finite:") else (False if k.startswith("has:bounds._bounds[") else None)))
     results = cr.run(analyse)
     codecs = set()
@@ -296,6 +303,8 @@ def run(check, repo, tier):
                 n1 += 1
             elif it[0] == "codec":
                 codecs.add(("GCodeCore.write/encode", it[1]))
+            elif it[0] == "undecided":
+                check.undecided(it[1], it[2])
             else:
                 check.violation(it[1], it[2], it[3], it[4])
                 n1 += 1
